@@ -69,6 +69,9 @@ class SymEval:
                 if s[2]:
                     r = UNIT
             elif s[0] == "item":
+                it = s[1]
+                if isinstance(it, dict) and it.get("kind") in ("const", "static") and it.get("init") is not None:
+                    env[it["name"]] = self.ev(it["init"], env)
                 continue
             else:
                 self.fail("statement kind %s" % s[0])
@@ -111,6 +114,9 @@ class SymEval:
         if k == "cast":
             v = self.ev(e[1], env)
             r = self.h.cast(v, e[2], e)
+            if r is NotImplemented and isinstance(v, int) and not isinstance(v, bool):
+                bits = {"u8": 8, "u16": 16, "u32": 32, "u64": 64, "usize": 64, "Word": 32, "spirv::Word": 32}.get(e[2].replace(" ", ""))
+                return v & ((1 << bits) - 1) if bits else v
             return v if r is NotImplemented else r
         if k == "tuple":
             return ("tuple", [self.ev(x, env) for x in e[1]]) if e[1] else UNIT
@@ -248,6 +254,9 @@ class SymEval:
             if r is not NotImplemented:
                 return r
             if p.endswith("fmt::format") or p.endswith("must_use") or p.endswith("hint::must_use"):
+                return args[0]
+            if len(args) == 1 and isinstance(args[0], int) and not isinstance(args[0], bool) and p.split("::")[-1] == "from" and \
+                    p.split("::")[-2:-1] and p.split("::")[-2] in ("usize", "u32", "u64", "u16", "u8", "i32", "i64", "Word"):
                 return args[0]
             if p in ("String::new", "::alloc::string::String::new", "std::string::String::new"):
                 return ("fmt", [])
@@ -715,12 +724,21 @@ def flatten_fmt(v):
     out = []
 
     def go(x):
+        if isinstance(x, tuple) and x and x[0] == "str":
+            out.append(x[1])
+            return
+        if isinstance(x, tuple) and x and x[0] == "join" and isinstance(x[2], tuple) and x[2][0] == "str":
+            for i, it in enumerate(x[1]):
+                if i:
+                    out.append(x[2][1])
+                go(it)
+            return
         if isinstance(x, tuple) and x and x[0] == "fmt":
             for p in x[1]:
                 if isinstance(p, str):
                     out.append(p)
                 else:
-                    if isinstance(p[1], tuple) and p[1] and p[1][0] == "fmt" and p[2] == "":
+                    if isinstance(p[1], tuple) and p[1] and p[1][0] in ("fmt", "join", "str") and p[2] == "":
                         go(p[1])
                     else:
                         out.append((p[1], p[2]))
